@@ -4,7 +4,7 @@ run the property's quick check against the worktree (VERIF_REPO) -> record under
 import glob, json, os, re, shutil, subprocess, sys, tempfile
 only = sys.argv[1:]
 SEED_DIR = os.environ.get("SEED_DIR", "/tmp/seed")
-RENAME = {"A": "C", "B": "D", "C": "E"} if SEED_DIR.endswith("seed2") else {"A": "E", "B": "F", "C": "G"} if SEED_DIR.endswith("seed3") else {}
+RENAME = ({"A": "C", "B": "D", "C": "E"} if SEED_DIR.endswith("seed2") else {"A": "E", "B": "F", "C": "G"} if SEED_DIR.endswith(("seed3", "seed4")) else {})
 # round 3: letters continue after those the property already has
 RENAME3 = {"C14": {"A": "C", "B": "D"}, "C17": {"A": "C", "B": "D"}, "C18": {"A": "C", "B": "D"}, "C20": {"A": "D", "B": "E"}}
 # the checks are run from a SNAPSHOT of the committed /verif (tracked files + build output), so that /verif can be edited meanwhile
